@@ -1,6 +1,8 @@
 """C12 -- RtpRouter: correspondence with Model/Router.v and property oracle."""
 import struct
 
+import types
+
 from harness.framework import Check, canon, classify_exc
 
 
@@ -156,6 +158,9 @@ SSRCS = [1, 2, 3, 4, 5, 1000, 4294967295, 0]
 PTS = [0, 8, 96, 97, 98, 111]
 
 
+_CERT = None
+
+
 class C12(Check):
     prop = "C12"
     props_file = "Props/C12.v"
@@ -166,7 +171,8 @@ class C12(Check):
                   "register/unregister/route histories (outputs and final tables compared after canonical sorting). "
                   "Receivers/senders are integer handles standing for object identity.")
     rule = ("random operation histories (3-40 ops) over 4 receivers, 3 senders, 8 SSRCs, 6 payload types, all RTCP "
-            "kinds, REMB FCIs valid/truncated/garbage; distinct by (history, outputs); non-trivial = at least one "
+            "kinds, REMB FCIs valid/truncated/garbage; registrations go through the real RTCDtlsTransport._register_rtp_receiver / "
+            "_register_rtp_sender / _unregister_* (one encoding per SSRC, one codec per payload type), packets through its router; distinct by (history, outputs); non-trivial = at least one "
             "route result is non-empty and at least one unregister occurs")
 
     def gen_case(self, rng, i):
@@ -246,21 +252,36 @@ class C12(Check):
                 handles[n] = H(n)
             return handles[n]
 
-        router = RtpRouter()
+        # registrations go through the real RTCDtlsTransport methods RTCRtpReceiver.receive / RTCRtpSender.send / stop call
+        # (one encoding per SSRC, one codec per payload type), packets through the transport's router
+        from aiortc.rtcdtlstransport import RTCDtlsTransport, RTCCertificate
+        from aiortc.rtcrtpparameters import (RTCRtpCodecParameters, RTCRtpDecodingParameters, RTCRtpReceiveParameters,
+                                             RTCRtpSendParameters)
+        global _CERT
+        if _CERT is None:
+            _CERT = RTCCertificate.generateCertificate()
+        transport = RTCDtlsTransport(types.SimpleNamespace(role="controlling"), [_CERT])
+        router = transport._rtp_router
+        assert isinstance(router, RtpRouter)
         outs = []
         for op in case:
             t = op[0]
             if t == 0:
-                router.register_receiver(h(op[1]), list(op[2]), list(op[3]), mid=(str(op[4][0]) if op[4] else None))
+                params = RTCRtpReceiveParameters(
+                    codecs=[RTCRtpCodecParameters(mimeType="video/VP8", clockRate=90000, payloadType=pt) for pt in op[3]],
+                    encodings=[RTCRtpDecodingParameters(ssrc=s, payloadType=(op[3][0] if op[3] else 0)) for s in op[2]],
+                    muxId=(str(op[4][0]) if op[4] else None))
+                transport._register_rtp_receiver(h(op[1]), params)
                 outs.append([])
             elif t == 1:
-                router.register_sender(h(op[1]), op[2])
+                h(op[1])._ssrc = op[2]
+                transport._register_rtp_sender(h(op[1]), RTCRtpSendParameters())
                 outs.append([])
             elif t == 2:
-                router.unregister_receiver(h(op[1]))
+                transport._unregister_rtp_receiver(h(op[1]))
                 outs.append([])
             elif t == 3:
-                router.unregister_sender(h(op[1]))
+                transport._unregister_rtp_sender(h(op[1]))
                 outs.append([])
             elif t == 4:
                 pkt = rtp.RtpPacket(payload_type=op[2], ssrc=op[1])
